@@ -61,7 +61,7 @@ type Opts struct {
 
 func (o Opts) norm() Opts {
 	if o.Type.Depth == 0 && !o.Type.Dynamic && !o.Type.Capsule {
-		o.Type = gen.TypeOpts{Depth: 2, Dynamic: true}
+		o.Type = gen.TypeOpts{Depth: 2, Dynamic: true, Long: 12}
 	}
 	o.Type.Optional = false
 	if o.MaxEdits == 0 {
